@@ -388,9 +388,9 @@ def replay(harness, inp):
 
 def jobs(tier):
     J = [Job("H2_boxes:2:%s:%d" % (vec, k), "h2_boxes", {"n": 2, "vec": vec, "part": [k, 2, 6]}, 300, "H2_boxes") for vec in ("default", "big") for k in range(2)]
-    if tier != "quick":
-        J += [Job("H2_boxes:2g:%s:%d" % (vec, k), "h2_boxes", {"n": 2, "vec": vec, "size": None, "part": [k, 8, 10]}, 1800, "H2_boxes") for vec in ("default", "big") for k in range(8)]
-        J += [Job("H2_boxes:3:%s:%d" % (vec, k), "h2_boxes", {"n": 3, "vec": vec, "part": [k, 8, 10]}, 1800, "H2_boxes") for vec in ("default", "big") for k in range(8)]
+    if tier != "quick":          # budgets sized so that the whole tier ends within about 45 min on 16 cores; the general families exhaust them and say so
+        J += [Job("H2_boxes:2g:%s:%d" % (vec, k), "h2_boxes", {"n": 2, "vec": vec, "size": None, "part": [k, 4, 9]}, 900, "H2_boxes") for vec in ("default", "big") for k in range(4)]
+        J += [Job("H2_boxes:3:%s:%d" % (vec, k), "h2_boxes", {"n": 3, "vec": vec, "part": [k, 4, 9]}, 900, "H2_boxes") for vec in ("default", "big") for k in range(4)]
     if tier == "quick":
         for vec in ("default", "none", "vert", "neg"):
             for k in range(3):
@@ -403,16 +403,17 @@ def jobs(tier):
                 J.append(Job("H1_analyze:degenerate2:%s:%d" % (vec, k), "h_analyze", {"family": "degenerate2", "vec": vec, "texts": 2, "part": [k, 6, 10]}, 300, "H1_analyze"))
     else:
         for vec in VECS:
+            for k in range(2):
+                J.append(Job("H1_analyze:general2:%s:%d" % (vec, k), "h_analyze", {"family": "general2", "vec": vec, "part": [k, 2, 8]}, 900, "H1_analyze"))
             for k in range(4):
-                J.append(Job("H1_analyze:general2:%s:%d" % (vec, k), "h_analyze", {"family": "general2", "vec": vec, "part": [k, 4, 9]}, 1800, "H1_analyze"))
-            for k in range(4):
-                J.append(Job("H1_analyze:degenerate2:%s:%d" % (vec, k), "h_analyze", {"family": "degenerate2", "vec": vec, "part": [k, 4, 9]}, 1800, "H1_analyze"))
+                J.append(Job("H1_analyze:degenerate2:%s:%d" % (vec, k), "h_analyze", {"family": "degenerate2", "vec": vec, "part": [k, 4, 9]}, 900, "H1_analyze"))
             for k in range(2):
                 J.append(Job("H1_analyze:fixed2:%s:%d" % (vec, k), "h_analyze", {"family": "fixed2", "vec": vec, "part": [k, 2, 8]}, 900, "H1_analyze"))
         for vec in STACK_VECS:
             for k in range(2):
                 J.append(Job("H1_analyze:stack3:%s:%d" % (vec, k), "h_analyze", {"family": "stack3", "vec": vec, "part": [k, 2, 6]}, 900, "H1_analyze"))
-        for vec in ("default", "none", "vert"):
-            for k in range(16):
-                J.append(Job("H1_analyze:fixed3:%s:%d" % (vec, k), "h_analyze", {"family": "fixed3", "vec": vec, "part": [k, 16, 12]}, 1800, "H1_analyze"))
+        # three free glyphs only where no hierarchy is built: with a numeric boxes_flow three boxes at equal distances are grouped in id() order (DESIGN section 5) and the
+        # engine's prefix replay diverges at once (the 2026-10-04 run of fixed3 under "default" ended inconclusive in every part)
+        for k in range(8):
+            J.append(Job("H1_analyze:fixed3:none:%d" % k, "h_analyze", {"family": "fixed3", "vec": "none", "part": [k, 8, 11]}, 900, "H1_analyze"))
     return J
